@@ -931,7 +931,7 @@ def rule_r17(ctx) -> RuleResult:
 
 
 def rule_r18(ctx) -> RuleResult:
-    """text_fn appends the link trail -- group 1 of `linktrailing_re` matched against the text after `]]` -- straight to the
+    r"""text_fn appends the link trail -- group 1 of `linktrailing_re` matched against the text after `]]` -- straight to the
     children of a LINK node that is already closed; that string is never merged or finalised again.  The text it is matched
     against can contain placeholder characters (the `<nowiki/>` marker, the bracket escapes, cookies).  So group 1 must not be
     able to consume one: language inclusion  L(group 1) ⊆ (Σ minus the placeholder range)*  (seed C01-9A: `\w+` widened to
